@@ -117,8 +117,8 @@ Drift(e) ==
 Report(e) ==
   LET v == Verdict(e)
       d == Drift(e)
-  IN PrintT(<<"VERDICT", ToJson([l |-> l, id |-> e.id, nfail |-> Cardinality(v), fails |-> Some(v, 40),
-                                  ndrift |-> Cardinality(d), drift |-> Some(d, 10)])>>)
+  IN PrintT(<<"VERDICT", ToJson([l |-> l, id |-> e.id, nfail |-> Cardinality(v), fails |-> SetToSeq(v),
+                                  ndrift |-> Cardinality(d), drift |-> Some(d, 25)])>>)
 
 Init == l = 1
 Next == /\ l <= N
